@@ -249,3 +249,25 @@ def unpack_tool(tools, path, obs):
         return problems
     finally:
         shutil.rmtree(out_dir, ignore_errors=True)
+
+
+def check_crc_folder(tools, wd, idx, good_files, bad_files, r):
+    """folder mode: exit 0 exactly when every .e57 file in the folder (recursively) is intact.
+    read_dir order is arbitrary, so several name permutations are tried."""
+    problems = []
+    for perm in range(3):
+        d = os.path.join(wd, "folder%04d_%d" % (idx, perm))
+        os.makedirs(os.path.join(d, "sub"), exist_ok=True)
+        members = [(f, True) for f in good_files] + [(f, False) for f in bad_files]
+        r.shuffle(members)
+        all_ok = True
+        for k, (f, ok) in enumerate(members):
+            name = "%s%02d.e57" % ("abcdefgh"[(k * 3 + perm) % 8], (k * 7 + perm * 5) % 100)
+            dst = os.path.join(d, "sub" if k % 3 == 2 else "", name)
+            shutil.copy(f, dst)
+            all_ok = all_ok and ok
+        p = run([os.path.join(tools, "e57-check-crc"), d])
+        if (p.returncode == 0) != all_ok:
+            problems.append(("check-crc/folder-exit-status", "folder with %d intact and %d damaged files: exit status %d" % (len(good_files), len(bad_files), p.returncode)))
+        shutil.rmtree(d, ignore_errors=True)
+    return problems
